@@ -14,7 +14,7 @@ meta = dict(property=pid, name=name, confirmed_at=time.strftime("%Y-%m-%d %H:%M:
 try:
     demo = open(os.path.join(src, "demo.sh")).read()
     import re
-    demo = re.sub(r"/tmp/seed/C\d+", wt, demo)
+    demo = re.sub(r"/tmp/seed\d*/C\d+", wt, demo)
     open(os.path.join(wt, "demo.sh"), "w").write(demo); os.chmod(os.path.join(wt, "demo.sh"), 0o755)
     sh("cargo build --offline -q", cwd=wt)
     r0 = sh("./demo.sh", cwd=wt); meta["demo_without_patch_rc"] = r0.returncode
